@@ -682,6 +682,43 @@ def sc_table():
 		_SC_TABLE = json.load(open(os.path.join(os.path.dirname(os.path.abspath(__file__)), 'provenance_shortcircuit.json')))
 	return _SC_TABLE
 
+def early_exit_loops(fu):
+	"""number of natural loops of a body that can be left from inside an iteration (`break`, `return`, `?` under a condition) - the
+	hand-written form of a first-match search: `for x in xs { if p(x) { r = Some(x); break } }` is `xs.find(p)`.  A loop with two or more exit
+	sources has an early exit (one source is the loop's own test)."""
+	try:
+		heads = back_edge_heads(fu)
+	except Exception:
+		return 0
+	n = 0
+	for h in heads:
+		latches = [a for a, b in fu.edges() if b == h and fu.dominates(h, a)]
+		body = {h}
+		st = list(latches)
+		while st:
+			x = st.pop()
+			if x in body:
+				continue
+			body.add(x)
+			st.extend(fu.pred(x))
+		srcs = set()
+		for u in body:
+			if fu.is_cleanup(u):
+				continue
+			for v in fu.succ(u):
+				if v in body or fu.is_cleanup(v):
+					continue
+				if fu.term(u)[1] in ('call', 'assert', 'drop') or fu.term(v)[1] == 'unreachable':
+					continue
+				srcs.add(u)
+		# the loop's own test is one exit source (`next()` returned None, the `while` condition failed); a second one is a break / return / `?`
+		early = len(srcs) >= 2
+		if early:
+			n += 1
+	return n
+
+_SC_FIRST_MATCH = ('find', 'find_map', 'position', 'rposition')
+
 def sc_census(F):
 	import re
 	if F.dir in _SCC:
@@ -707,6 +744,9 @@ def sc_census(F):
 				k = (fl, tail, m.group(1))
 				cnt[k] += 1
 				where.setdefault(k, (n, fu.line_of(b)))
+		lb = early_exit_loops(fu)
+		if lb:
+			cnt[(fl, tail, 'loopbreak')] += lb
 	_SCC[F.dir] = (cnt, where, known)
 	return _SCC[F.dir]
 
@@ -720,11 +760,20 @@ def sc_rule(F, rule_id, file_res, floor=0):
 	n = 0
 	for k, c in sorted(cnt.items()):
 		fl, tail, ad = k
+		if ad == 'loopbreak':
+			continue
 		if not any(re.search(p, fl.replace(':', '/src/')) for p in file_res):
 			continue
 		n += c
 		if tail not in tknown.get(fl, ()):
 			continue   # a function the table never saw
+		if c > tcount.get(k, 0) and ad in _SC_FIRST_MATCH:
+			# a hand-written first-match loop (`for .. { if p { r = ..; break } }`) rewritten as `.find(p)` stops exactly where the loop did: gained
+			# first-match adaptors are set against the early-exit loops the function lost (both pooled per function)
+			gained = sum(max(0, cnt.get((fl, tail, a), 0) - tcount.get((fl, tail, a), 0)) for a in _SC_FIRST_MATCH)
+			lost_loops = tcount.get((fl, tail, 'loopbreak'), 0) - cnt.get((fl, tail, 'loopbreak'), 0)
+			if gained <= lost_loops:
+				continue
 		if c > tcount.get(k, 0):
 			fn, line = where[k]
 			out.append(Result(rule_id, False, 'short-circuit:%s:%s' % (tail, ad), '%s now calls Iterator::%s %d time(s) (reviewed: %d): an iteration that used to visit every element may stop at the first match' % (tail, ad, c, tcount.get(k, 0)), 1, where=F.where(fn, line)))
